@@ -59,7 +59,7 @@ func envInt(name string, def int64) int64 {
 func outDir() string {
 	d := os.Getenv("VERIF_OUT")
 	if d == "" {
-		d = "/verif/build"
+		d = filepath.Join(verifRoot(), "build")
 	}
 	return d
 }
@@ -220,7 +220,7 @@ func replayOps(t *testing.T) []string {
 // corpusOps returns all op files of /verif/corpus/<id>/*.ops (each one history).
 func corpusOps(id string) [][]string {
 	var res [][]string
-	fs, _ := filepath.Glob(filepath.Join("/verif/corpus", id, "*.ops"))
+	fs, _ := filepath.Glob(filepath.Join(verifRoot(), "corpus", id, "*.ops"))
 	sort.Strings(fs)
 	for _, f := range fs {
 		b, err := os.ReadFile(f)
@@ -247,4 +247,11 @@ func safely(f func()) (panicked bool, msg string) {
 	}()
 	f()
 	return
+}
+
+func verifRoot() string {
+	if d := os.Getenv("VERIF_ROOT"); d != "" {
+		return d
+	}
+	return "/verif"
 }
